@@ -58,13 +58,39 @@ func genC12(r *kernel.Rand) *kernel.Scenario {
 	c["assets"] = int64(1 + r.Weighted([]int{3, 1}))
 	c["r"] = int64(r.Uint64() >> 2)
 	c["virtual"] = int64(r.Intn(2)) // an honest virtual channel A<->B exists
+	if c["virtual"] == 0 && r.Bool(0.6) {
+		// without matched virtual-channel proposals nothing is sent under a std
+		// mutex, so the bus may park publishers (a slow link: replies stay in
+		// flight while other messages arrive)
+		c["sync_bus"] = 1
+		c["bus_max_us"] = int64([]int{100, 400, 3000}[r.Intn(3)])
+	}
 	// H has a pending own request while the messages arrive: 1 = for 3 s, 2 = for
 	// 12 s (longer than the library's 10 s timeouts for taking the machine lock)
 	c["hold"] = int64(r.Weighted([]int{3, 2, 2}))
+	// Swarm weights: messages that the victim actually acts on (valid updates,
+	// sync messages for an open channel, well-formed proposals) create in-flight
+	// state for the other messages to collide with, so they are drawn more often;
+	// per run a random third of the kinds is switched off entirely.
+	w := make([]int, len(c12Kinds))
+	for i, k := range c12Kinds {
+		w[i] = 1
+		switch k {
+		case "upd:valid":
+			w[i] = 10
+		case "sync:current", "sync:while-locked":
+			w[i] = 5
+		case "lprop:ok", "sprop:ok-shape", "vprop:ok-shape", "vfund:ok-shape", "upd:final", "urej:pending", "uacc:pending-garbage-sig":
+			w[i] = 3
+		}
+		if r.Bool(0.33) && w[i] < 5 {
+			w[i] = 0
+		}
+	}
 	n := r.Range(1, 6)
 	for i := 0; i < n; i++ {
-		k := c12Kinds[r.Intn(len(c12Kinds))]
-		sc.Steps = append(sc.Steps, kernel.St("msg", "kind", k, "from", r.Weighted([]int{3, 1}), "r", int64(r.Uint64()>>2), "gap_us", []int{0, 5, 100, 2000, 200000}[r.Intn(5)]))
+		k := c12Kinds[r.Weighted(w)]
+		sc.Steps = append(sc.Steps, kernel.St("msg", "kind", k, "from", r.Weighted([]int{3, 1}), "r", int64(r.Uint64()>>2), "gap_us", []int{0, 5, 50, 100, 400, 2000, 200000}[r.Intn(7)]))
 	}
 	return sc
 }
